@@ -44,6 +44,8 @@ def main():
     ap.add_argument("--replay", default=None)
     ap.add_argument("--only", default=None, help="substring filter on partition labels (debugging)")
     a = ap.parse_args()
+    if a.only and not os.environ.get("VT_OUT"):
+        os.environ["VT_OUT"] = str(HERE / "out" / "partial")  # debugging runs never overwrite the evidence file
     prop = a.prop.upper()
     if a.replay:
         sys.exit(do_replay(prop, a.replay))
